@@ -41,14 +41,14 @@ EFF_H = {"ms": 0.0, "1h": 1.0, "3h": 3.0, "8h": 8.0, "13h": 13.0, "20min": 1 / 3
 
 
 # ---------------------------------------------------------------------------------------------------------------
-def gen_projects(rng, n, alap=False, limits=True, containers=True, sub_slot=True, start=START, weeks=3, milestones=True):
+def gen_projects(rng, n, alap=False, limits=True, containers=True, sub_slot=True, start=START, weeks=3, milestones=True, grans=(3600,)):
     """n random small projects as dicts (a dict renders to .tjp text with render())."""
     out = []
     for _ in range(n):
         nres = rng.choice([1, 1, 2])
         res = []
         for i in range(nres):
-            r = {"id": f"r{i}", "eff": rng.choice([1.0, 1.0, 0.5]), "dailymax": rng.choice([None, None, 4]) if limits else None,
+            r = {"id": f"r{i}", "eff": rng.choice([1.0, 1.0, 0.5, 1.5, 2.0]), "dailymax": rng.choice([None, None, 4]) if limits else None,
                  "leave": rng.choice([None, None, 1, 2]), "hours": rng.choice([None, None, None, (10, 16), (8, 12)])}
             res.append(r)
         ntask = rng.randint(2, 4)
@@ -66,7 +66,8 @@ def gen_projects(rng, n, alap=False, limits=True, containers=True, sub_slot=True
         cont = None
         if containers and ntask >= 3 and rng.random() < 0.3:
             cont = (1, 2)           # tasks 1..2 inside a container "g"
-        out.append({"res": res, "tasks": tasks, "container": cont, "alap": alap, "start": start, "weeks": weeks})
+        out.append({"res": res, "tasks": tasks, "container": cont, "alap": alap, "start": start, "weeks": weeks,
+                    "gran": rng.choice(grans)})
     return out
 
 
@@ -84,7 +85,9 @@ def render(p, rename=None, extra_task=None, comments=False, precedes=False, scen
     rn = (lambda s: rename.get(s, s)) if rename else (lambda s: s)
     lines = []
     st = p["start"].strftime("%Y-%m-%d")
+    gran = p.get("gran", 3600)
     lines.append(f'project prj "P" {st} +{p["weeks"]}w {{ timezone "UTC"' + (" scheduling alap" if p["alap"] else "") +
+                 (f" timingresolution {gran // 60}min" if gran != 3600 else "") +
                  (' scenario plan "Plan" { scenario delayed "Delayed" }' if scenario2 else "") + " }")
     if comments:
         lines.append("# a comment line\n/* block\n comment */")
@@ -356,7 +359,7 @@ def main():
         nontrivial.add(hash(text))
 
     if prop in single:
-        projs = gen_projects(rng, n)
+        projs = gen_projects(rng, n, grans=(3600, 3600, 1800, 900))
         if prop in ("C04", "C11", "C08"):
             projs += gen_projects(rng, n // 3, alap=True, limits=False, sub_slot=False, milestones=False)
         for k, p in enumerate(projs):
@@ -400,6 +403,68 @@ def main():
                     elif abs(sum(mine["r1"].values()) - eff * 3600) > 1:
                         fails.append({"clause": "C03:team-effort", "key": key, "input": text,
                                       "detail": f"each member booked {sum(mine['r1'].values())}s for effort {eff}h"})
+        if prop == "C03":
+            # alternatives sub-universe: an allocation with alternatives books exactly ONE of the candidates, for the whole effort
+            for k in range(n // 3):
+                effs = [rng.choice([2, 5, 8, 11]) for _ in range(3)]
+                e2 = rng.choice([1.0, 1.0, 0.5, 2.0])
+                text = ('project prj "P" 2025-01-06 +3w { timezone "UTC" }\n'
+                        f'resource r1 "r1" {{}}\nresource r2 "r2" {{ efficiency {e2} }}\nresource r3 "r3" {{}}\n'
+                        f'task a "a" {{ effort {effs[0]}h allocate r1 priority 900 }}\n'
+                        f'task b "b" {{ effort {effs[1]}h allocate r1 {{ alternative r2 }} }}\n'
+                        f'task c "c" {{ effort {effs[2]}h allocate r2 {{ alternative r3, r1 }} depends a }}\n')
+                key = f"C03/alt/{SEED}/{k}"
+                proj = run(text)
+                evals += 1
+                record(key, text)
+                led = ledger(proj)
+                effmap = {"r1": 1.0, "r2": e2, "r3": 1.0}
+                for fid, cands, need in (("b", {"r1", "r2"}, effs[1]), ("c", {"r2", "r3", "r1"}, effs[2])):
+                    if not dates(proj)[fid][2]:
+                        continue
+                    used = {rid: sum(sec for lst in slots.values() for tf, sec in lst if tf == fid) for rid, slots in led.items()}
+                    used = {rid: v for rid, v in used.items() if v > 0}
+                    if len(used) != 1 or not set(used) <= cands:
+                        fails.append({"clause": "C03:one-alternative", "key": key, "input": text, "detail": f"{fid} booked on {used}"})
+                    else:
+                        rid, secs = next(iter(used.items()))
+                        if abs(secs * effmap[rid] / 3600.0 - need) > 2.0 / 3600:
+                            fails.append({"clause": "C03:effort", "key": key, "input": text, "detail": f"{fid}: {secs}s on {rid} (eff {effmap[rid]}) for {need}h"})
+        if prop == "C05":
+            # group / task / weekly limits sub-universe: a limit on a resource group counts the work of all its members, a
+            # limit on a task (or container) counts the work of all tasks below it, weekly limits count per ISO week
+            for k in range(n // 2):
+                glim = rng.choice(["dailymax 5h", "dailymax 3h", "weeklymax 12h", "weeklymax 20h"])
+                tlim = rng.choice(["", "limits { dailymax 2h }", "limits { weeklymax 6h }", "limits { dailymax 3h }"])
+                st = rng.choice(["2025-01-06", "2025-01-08", "2025-12-29", "2026-12-28", "2025-01-06-13:00"])
+                effs = [rng.choice([3, 8, 13, 20]) for _ in range(3)]
+                text = (f'project prj "P" {st} +4w {{ timezone "UTC" }}\n'
+                        f'resource team "T" {{ limits {{ {glim} }}\n  resource r0 "r0" {{}}\n  resource r1 "r1" {{}}\n}}\n'
+                        f'task box "B" {{ {tlim}\n  task x "x" {{ effort {effs[0]}h allocate r0 }}\n  task y "y" {{ effort {effs[1]}h allocate r1 }}\n}}\n'
+                        f'task z "z" {{ effort {effs[2]}h allocate r0 }}\n')
+                key = f"C05/group/{SEED}/{k}"
+                proj = run(text)
+                evals += 1
+                record(key, text)
+                led = ledger(proj)
+
+                def periods(entries, weekly):
+                    acc = defaultdict(float)
+                    for d_, sec in entries:
+                        acc[d_.isocalendar()[:2] if weekly else d_.date()] += sec
+                    return acc
+                team_entries = [(proj.idxToDate(sl), sec) for rid, slots in led.items() for sl, lst in slots.items() for _t, sec in lst]
+                box_entries = [(proj.idxToDate(sl), sec) for rid, slots in led.items() for sl, lst in slots.items() for tf, sec in lst if tf.startswith("box.")]
+                for what, lim, entries in (("group team", glim, team_entries), ("task box", tlim.replace("limits { ", "").replace(" }", ""), box_entries)):
+                    if not lim:
+                        continue
+                    kind, val = lim.split()
+                    cap = float(val.rstrip("h")) * 3600
+                    for per, secs in periods(entries, kind == "weeklymax").items():
+                        if secs > cap + 1e-6:
+                            fails.append({"clause": f"C05:{kind}-{what.split()[0]}", "key": key, "input": text,
+                                          "detail": f"{what}: {secs / 3600:.2f}h in {per} against {lim}"})
+                            break
         if prop == "C10":
             # second sub-universe: containers whose children include a fixed-date milestone (placed by the pre-pass,
             # not by the slot walk) and nested containers
@@ -517,6 +582,27 @@ def main():
                     if withi[f] != v:
                         fails.append({"clause": "C09:intruder-moved-task", "key": f"C09/{SEED}/{k}", "detail": f"{f}: {v} -> {withi[f]}", "input": text})
                         break
+        # second sub-universe: allocation-free tasks (milestones) between a low- and a high-priority chain: finishing the
+        # milestone makes a HIGHER-priority task ready; the added lowest-priority task competes for that task's resource
+        for k in range(n // 2):
+            e = [rng.choice(["2h", "5h", "8h", "13h"]) for _ in range(4)]
+            pr = rng.choice([600, 900, 1000])
+            chain = rng.random() < 0.5
+            base = ('project prj "P" 2025-01-06 +4w { timezone "UTC" }\nresource r1 "r1" {}\nresource r2 "r2" {}\n'
+                    + (f'task other "other" {{ effort {e[2]} allocate r1 }}\n' if rng.random() < 0.4 else "") +
+                    f'task prep "prep" {{ effort {e[0]} allocate r1 }}\n'
+                    'task gate "gate" { depends prep }\n'
+                    + ('task gate2 "gate2" { depends gate }\n' if chain else "")
+                    + f'task hi "hi" {{ effort {e[1]} allocate r2 priority {pr} depends {"gate2" if chain else "gate"} }}\n'
+                    )
+            text = base + f'task intruder "I" {{ effort {e[3]} allocate r2 priority 1 }}\n'
+            a, b = dates(run(base)), dates(run(text))
+            evals += 1
+            record(("gate", k), text)
+            for f, v in a.items():
+                if b[f] != v:
+                    fails.append({"clause": "C09:intruder-moved-task", "key": f"C09/gate/{SEED}/{k}", "detail": f"{f}: {v} -> {b[f]}", "input": text})
+                    break
     elif prop == "C12":
         for k, p in enumerate(gen_projects(rng, n // 2)):
             text = render(p)
@@ -524,14 +610,15 @@ def main():
             ls = text.split("\n")
             for li, ln in enumerate(ls):
                 if ln.lstrip().startswith("task ") and ln.endswith(" }") and "priority" not in ln:
-                    ls[li] = ln[:-2] + "\n# tuned like ${leak}\n}"
+                    ls[li] = ln[:-2] + "\n# tuned like ${leak" + str(k) + "}\n}"
                     break
             text = "\n".join(ls)
             a = dates(run(text))
-            other = "macro leak [\n  note\n  priority 1000\n]\n" + render(gen_projects(rng, 1)[0])
-            run(other)
+            # (the macro name is new in every round: with a leaking table the FIRST run `a` is still clean)
+            if k % 2 == 0:
+                run(f"macro leak{k} [\n  like this\n  priority 1000\n]\n" + render(gen_projects(rng, 1)[0]))
             try:
-                run("macro leak [\n x\n priority 1000\n]\nproject broken \"B\" 2025-01-06 +1w { }\ntask t \"T\" { effrt 2d }\n")
+                run(f"macro leak{k} [\n  like this\n  priority 1000\n]\nproject broken \"B\" 2025-01-06 +1w {{ }}\ntask t \"T\" {{ effrt 2d }}\n")
             except Exception:  # noqa   (a failing run is part of the history)
                 pass
             b = dates(run(text))
